@@ -9,6 +9,7 @@
 #ifdef VERIF_NATIVE
 #include <sys/mman.h>
 int verif_exc, verif_exc_kind;
+int STOP_IS_FAILURE, STOPPED;
 #endif
 static uint64_t vals[65536]; static int nvals, pos;
 static unsigned char heap_img[1 << 16]; static int heap_len;
@@ -42,6 +43,9 @@ static void on_abort(int s)
     (void)s;
     const char m[] = "STOPPED (signal)\n";
     write(1, m, sizeof m - 1);
+#ifdef VERIF_NATIVE
+    if (STOP_IS_FAILURE) { const char v[] = "ASSERTION-VIOLATED: program stopped (abort/terminate/trap) where it must not\n"; write(1, v, sizeof v - 1); _exit(1); }
+#endif
     _exit(42);
 }
 int main(int argc, char** argv)
